@@ -59,7 +59,8 @@ func runC11(c *vh.Ctx) {
 	c.Rule("a case = (operand list over pool files / missing file / \"-\" / \"\" / var=value, stdin records, BEGIN ops, rules with " +
 		"always|predicate|range patterns and op-list bodies, END ops) rendered as an AWK program with random syntactic embedding " +
 		"(functions, loops, expression positions, getline target kinds, pipes); classes: trace (emit-only rules), range, argv (BEGIN edits " +
-		"ARGV/ARGC), mixed (getline forms, next/nextfile/exit nested in calls and loops), corpus; non-trivial = at least two records " +
+		"ARGV/ARGC), mixed (getline forms, close, next/nextfile/exit nested in calls and loops), long-ctl / long-getline (1500-5000 records over " +
+		"3-4 files, early exits from inside user functions on most records, files closed and reopened thousands of times), corpus; non-trivial = at least two records " +
 		"were traced and the case has two operands or a getline or a control statement or a range")
 
 	// the shared pool of real files, in a scratch directory that becomes the working directory
@@ -109,6 +110,21 @@ func runC11(c *vh.Ctx) {
 	for i := 0; g != nil && i < c.N(1500, 25000); i++ {
 		cases = append(cases, g.mixedCase())
 	}
+	if g != nil {
+		// long runs: inputs of 1500-5000 records over 3-4 files
+		lp := longPool(c)
+		for name, recs := range lp {
+			if err := os.WriteFile(name, []byte(joinRecs(recs)), 0o644); err != nil {
+				panic(err)
+			}
+		}
+		for i := 0; i < c.N(8, 40); i++ {
+			cases = append(cases, g.longCtlCase(lp))
+		}
+		for i := 0; i < c.N(4, 16); i++ {
+			cases = append(cases, g.longGetlineCase(lp))
+		}
+	}
 	for _, cs := range cases {
 		if cs.Awk == "" {
 			cs.Awk = cs.awk(false)
@@ -126,7 +142,7 @@ func runC11(c *vh.Ctx) {
 		hitCase(c, cs, r)
 		key := cs.leanReq() + "|" + fmt.Sprint(cs.Variant)
 		c.Eval(key, nontrivial(cs, r))
-		if i%997 == 0 {
+		if i%997 == 0 && !strings.HasPrefix(cs.Class, "long") {
 			c.Sample(map[string]interface{}{"class": cs.Class, "args": cs.Args, "awk": cs.Awk, "trace": canonEvents(r.evs)})
 		}
 		if r.parse != "" {
@@ -246,6 +262,8 @@ func features(cs *Case) map[string]bool {
 				}
 			case "sa", "sc":
 				f["argv-edit"] = true
+			case "cl":
+				f["op:cl"] = true
 			case "c", "l", "i":
 				f["op:"+o.K] = true
 				walk(o.Body, depth+1)
